@@ -327,11 +327,18 @@ func (cs Case) sources(cx ctxInfo) (pconst, prun string) {
 				globals = append(globals, fmt.Sprintf("const c%s = %s", name, spell(l, cs.Kind, cs.Bits)))
 				return "c" + name
 			}
+			if m, neg := magnitude(l); neg && l.Neg == "unary" {
+				globals = append(globals, fmt.Sprintf("const c%s = %s", name, m))
+				return fmt.Sprintf("-%s(c%s)", tn, name)
+			}
 			globals = append(globals, fmt.Sprintf("const c%s = %s", name, untyped(l)))
 			return fmt.Sprintf("%s(c%s)", tn, name)
 		case "tconst":
 			if cs.Kind == "bool" {
 				globals = append(globals, fmt.Sprintf("const c%s bool = %s", name, spell(l, cs.Kind, cs.Bits)))
+			} else if m, neg := magnitude(l); neg && l.Neg == "unary" {
+				globals = append(globals, fmt.Sprintf("const c%s %s = %s", name, tn, m))
+				return "-c" + name
 			} else {
 				globals = append(globals, fmt.Sprintf("const c%s %s = %s", name, tn, untyped(l)))
 			}
@@ -612,19 +619,20 @@ func coarseSign(l Lit, kind string, bits int) string {
 }
 
 // ctxClass groups the consuming contexts: value (the folded value is
-// already wrong when returned as is), cmp, divmod (consumers that look at
-// the value as a number of the declared type), shr/shl/widen (consumers that
-// are folded themselves), wrap (consumers that depend on the low N bits
-// only).
-func ctxClass(name string) string {
+// already wrong when returned as is); num (run-time consumers that look at
+// the constant as a number of its type: comparisons, division, modulo);
+// chain (consumers that are folded themselves: >> 1, << 1, widening cast);
+// wrap (run-time consumers that depend on the low N bits only); bool
+// (consumers of a folded boolean).
+func ctxClass(name string, boolResult bool) string {
+	if boolResult {
+		return "bool"
+	}
 	switch name {
-	case "lt", "rlt", "ge", "eq", "if", "phi", "not", "and", "or":
-		if name == "and" || name == "or" || name == "not" || name == "phi" {
-			return "bool"
-		}
-		return "cmp"
-	case "div", "mod":
-		return "divmod"
+	case "lt", "rlt", "ge", "eq", "if", "div", "mod":
+		return "num"
+	case "shr", "shl", "widen":
+		return "chain"
 	case "add", "radd", "sub", "rsub", "mul", "xor", "band":
 		return "wrap"
 	}
@@ -930,7 +938,7 @@ func evaluateOp(cs Case, checkOperands bool) ([]ev.Outcome, ev.Outcome) {
 			fails = append(fails, ev.Fail(sig, "compiler panics on P_const (context %s): %s",
 				r.name, r.panic))
 		case r.diff != "":
-			ctx := ctxClass(r.name)
+			ctx := ctxClass(r.name, rk == "bool")
 			prefix := "fold/"
 			if !r.folded {
 				prefix = "nofold/"
